@@ -336,6 +336,43 @@ fn templates() -> Vec<Json> {
         t.push(tpl("infix-then-prefix", &format!("rhs-not {op}"), pre, &format!("{a} {op} !{b}"), &format!("{a} {op} (!{b})"), &[], false));
         t.push(tpl("infix-then-prefix", &format!("rhs-deref {op}"), pre, &format!("{a} {op} *m"), &format!("{a} {op} (*m)"), &[], false));
     }
+    // the same with operands that are not known when the text is folded (parameters of a function,
+    // one or both): a rewrite of `!a == b` or `-a * b` by the folding pass must respect the grouping
+    for op in INFIX {
+        let operands: &[(&str, &str, &str)] = match op {
+            "&&" | "||" => &[("bool", "true", "false"), ("bool", "false", "false")],
+            _ => &[("int", "7", "2"), ("int", "5", "3"), ("int", "-6", "5"), ("bool", "true", "false")],
+        };
+        for (ty, a, b) in operands {
+            for (pfx, pname) in [("-", "minus"), ("!", "not")] {
+                for (params, args, va, vb, how) in [
+                    (format!("a: {ty}, b: {ty}"), format!("{a}, {b}"), "a".to_string(), "b".to_string(), "both"),
+                    (format!("a: {ty}"), a.to_string(), "a".to_string(), b.to_string(), "left"),
+                    (format!("b: {ty}"), b.to_string(), a.to_string(), "b".to_string(), "right"),
+                ] {
+                    let f = |body: String| format!("pf := ({params}) -> any {{ return {body}; }}; pf({args})");
+                    t.push(tpl(
+                        "prefix-before-infix-param",
+                        &format!("{pname} {op} {ty} {a} {b} {how}"),
+                        pre,
+                        &f(format!("{pfx}{va} {op} {vb}")),
+                        &f(format!("({pfx}{va}) {op} {vb}")),
+                        &[&f(format!("{pfx}({va} {op} {vb})"))],
+                        false,
+                    ));
+                    t.push(tpl(
+                        "infix-then-prefix-param",
+                        &format!("rhs-{pname} {op} {ty} {a} {b} {how}"),
+                        pre,
+                        &f(format!("{va} {op} {pfx}{vb}")),
+                        &f(format!("{va} {op} ({pfx}{vb})")),
+                        &[],
+                        false,
+                    ));
+                }
+            }
+        }
+    }
     // postfix forms bind tighter than prefix operators
     t.push(tpl("postfix-after-prefix", "minus index", pre, "-arr[0]", "-(arr[0])", &["(-arr)[0]"], true));
     t.push(tpl("postfix-after-prefix", "not index", pre, "!arr[1]", "!(arr[1])", &["(!arr)[1]"], true));
